@@ -6,7 +6,7 @@ META = {
  'stubs': [], 'assumes': ['image payload: ascending distinct non-zero hashes below theta'],
  'outside': ['std::istream path', 'corruption beyond the preamble', 'compressed (serial version 4) images with symbolic payload', 'families other than those listed in bounds'],
 }
-GENERIC = [('kll', 'serde_kll', 0, 8, 12), ('kll', 'serde_kll', 1, 12, 12), ('kll', 'serde_kll', 2, 40, 12), ('kll', 'serde_kll', 3, 44, 12),
+GENERIC = [('kllm', 'serde_kll', 2, 60, 20), ('kll', 'serde_kll', 0, 8, 12), ('kll', 'serde_kll', 1, 12, 12), ('kll', 'serde_kll', 2, 40, 12), ('kll', 'serde_kll', 3, 44, 12),
            ('qs', 'serde_qs', 0, 8, 12), ('qs', 'serde_qs', 1, 28, 12), ('qs', 'serde_qs', 3, 36, 12),
            ]
 GENERIC_THOROUGH = [('req', 'serde_req', 0, 8, 12), ('req', 'serde_req', 1, 12, 12), ('req', 'serde_req', 2, 36, 12), ('req', 'serde_req', 3, 40, 12),
